@@ -31,6 +31,13 @@ def stepS (st : PSet) (line : String) : PSet × String :=
       let r : PSet × Bool := Fix8Model.SortedSet.insert st k
       (r.1, s!"{if r.2 then 1 else 0} sz={r.1.arr.length} rsz={r.1.rsz}")
     | none => (st, "bad-op")
+  | "insr" :: ks =>
+    -- range insert: element by element, stops at the first one that is refused
+    match ks.mapM (·.toInt?) with
+    | some (k :: rest) =>
+      let r := (k :: rest).foldl (fun (acc : PSet × Bool) x => if acc.2 then Fix8Model.SortedSet.insert acc.1 x else acc) (st, true)
+      (r.1, s!"sz={r.1.arr.length} rsz={r.1.rsz}")
+    | _ => (st, "bad-op")
   | ["fnd", k] =>
     match k.toInt? with
     | some k => (st, s!"{if (find st k).2 then 1 else 0}")
@@ -39,7 +46,7 @@ def stepS (st : PSet) (line : String) : PSet × String :=
   | ["arr"] => (st, " ".intercalate (st.arr.map toString) ++ ".")
   | _ => (st, "")
 
-def step (line : String) : String :=
+def step1 (line : String) : String :=
   match Drivers.words line with
   | ["idx", fnum, h] =>
     match fnum.toNat?, Drivers.unhex h with
@@ -75,6 +82,12 @@ def step (line : String) : String :=
       | none => "no-msg"
     | _, _ => "bad-op"
   | _ => "bad-op"
+
+/-- `asg fnum v1 v2 mode`: a field object that held (and was looked up with) `v1` receives `v2`; the lookup depends on the current value only -/
+def step (line : String) : String :=
+  match Drivers.words line with
+  | ["asg", fnum, _, h, _] => step1 ("idx " ++ fnum ++ " " ++ h)
+  | _ => step1 line
 
 def stepAll (st : PSet) (line : String) : PSet × String :=
   let r := stepS st line
